@@ -138,6 +138,12 @@ def unknown_names():
             names.add(nm[:i] + 'x' + nm[i + 1:])
             names.add(nm[:i] + nm[i].upper() + nm[i + 1:])
         names.add(nm + '_')
+    # names that are not settings but exist as other attributes / methods / class constants of a Config object
+    try:
+        names |= {n for n in dir(_p.Config()) if n not in ORDER}
+    except Exception:  # noqa
+        pass
+    names |= {'config_name', 'config_text', 'decompile_to_text', 'from_dict', '__class__', '__dict__', '_CONFIG_ATTRIBUTES'}
     names -= set(ORDER)
     names -= {'n', 's', 'e', 'w', 'N', 'S', 'E', 'W', ''}
     return sorted(names)
